@@ -51,7 +51,7 @@ def gen_case(rng, i):
     if share and inj and rng.random() < 0.6:
         # a violation on one of several mocks sharing a file, first / middle / last in source order
         inj = {"stage": rng.choice(["schema-invalid-iface", "schema-invalid-iface", "template-exec", "template-parse"]), "file": rng.choice([1, 1, n, rng.randint(1, n)])}
-    return {"kind": "write", "i": i, "n": n, "files": files, "share": share, "filename_subdir": rng.random() < 0.2, "env_force": rng.choice([None, None, True, False]), "root_force": rng.choice([None, True, False, True]),
+    return {"kind": "write", "i": i, "n": n, "files": files, "share": share, "filename_subdir": rng.random() < 0.2, "line_directive": rng.random() < 0.12, "env_force": rng.choice([None, None, True, False]), "root_force": rng.choice([None, True, False, True]),
             "pkg_force": rng.choice([None, None, True, False]), "inj": inj, "formatter": rng.choice(["goimports", "gofmt", "noop"])}
 
 
@@ -59,8 +59,17 @@ def build(case, root, server, with_injection, all_force):
     """returns (files dict, cfg, outputs {k: relpath})"""
     n = case["n"]
     files = {"p/p.go": src(n), "p2/q.go": "package p2\n\ntype Q interface{ Query(s string) error }\n"}
+    odir = "out/{{.SrcPackageName}}"
+    oprefix = {"p": "out/p/", "p2": "out/p2/"}
+    if case.get("line_directive"):
+        # generated sources (goyacc, protoc plug-ins) start with a //line directive naming another file: the designated directory is still
+        # derived from the file that really declares the interface
+        files["p/p.go"] = "//line ../elsewhere/grammar/p.y:1\n" + files["p/p.go"]
+        files["p2/q.go"] = "//line /abs/nowhere/q.y:7\n" + files["p2/q.go"]
+        odir = "{{.InterfaceDir}}/gen"
+        oprefix = {"p": "p/gen/", "p2": "p2/gen/"}
     fdir = "gen/" if case.get("filename_subdir") else ""   # a filename with a directory component: the designated path is Clean(dir/filename)
-    cfg = {"dir": "out/{{.SrcPackageName}}", "filename": fdir + "m_{{.InterfaceName}}.go", "pkgname": "mocks", "formatter": case["formatter"]}
+    cfg = {"dir": odir, "filename": fdir + "m_{{.InterfaceName}}.go", "pkgname": "mocks", "formatter": case["formatter"]}
     if all_force:
         cfg["force-file-write"] = True
     elif case["root_force"] is not None:
@@ -115,14 +124,14 @@ def build(case, root, server, with_injection, all_force):
                 ic["require-template-schema-exists"] = False
                 ic["formatter"] = "gofmt" if case["formatter"] == "noop" else case["formatter"]
         p["interfaces"]["I%d" % k] = {"config": ic}
-        outputs[k] = ("out/p/" + fdir + "m_all.go") if share else "out/p/%sm_I%d.go" % (fdir, k)
+        outputs[k] = (oprefix["p"] + fdir + "m_all.go") if share else oprefix["p"] + "%sm_I%d.go" % (fdir, k)
     cfg["packages"] = {MOD + "/p": p}
     # a second package with one file; the file-level schema violation lives here
     p2 = {"config": {}, "interfaces": {"Q": None}}
     if inj and inj["stage"] == "schema-invalid-file":
         p2["config"]["template-data"] = {"unroll-variadic": "not a boolean"}
     cfg["packages"][MOD + "/p2"] = p2
-    outputs["q"] = "out/p2/" + fdir + "m_Q.go"
+    outputs["q"] = oprefix["p2"] + fdir + "m_Q.go"
     files[".mockery.yml"] = json.dumps(cfg)
     return files, cfg, outputs
 
@@ -140,7 +149,9 @@ def eval_case(ctx, case):
     if r0.timed_out:
         return Verdict.inconclusive("watchdog (reference run)")
     if r0.exit != 0:
-        return Verdict.inconclusive("fault-free reference run failed: " + r0.err[-500:])
+        # the same configuration without any fault, on a pristine tree, everything forced: nothing prevents it from succeeding
+        return Verdict.violated("a fault-free run of the configuration on a pristine tree exited %s" % r0.exit, dict(r0.brief(), config=rcfg),
+                                ["reference-run"] + (["line-directive"] if case.get("line_directive") else []) + (["filename-with-directory"] if case.get("filename_subdir") else []))
     ref = {}
     for k, rel in outputs.items():
         if not os.path.isfile(os.path.join(ref_root, rel)):
@@ -216,7 +227,7 @@ def eval_case(ctx, case):
     blocked = [rel for rel in outputs.values() if states[rel] != "absent" and not eff_force[rel]]
     dir_clash = [rel for rel in outputs.values() if states[rel] == "dir" and eff_force[rel]]
     must_fail = bool(blocked or dir_clash or inj)
-    tags = ["files=%d" % len(set(outputs.values())), "formatter=" + case["formatter"]] + (["shared-file-of-%d" % case["n"]] if case.get("share") else []) + (["filename-with-directory"] if case.get("filename_subdir") else []) + (["env-contradicts-file"] if case.get("env_force") is not None and case.get("root_force") is not None else []) + (["inject=" + inj["stage"]] if inj else ["no-fault"]) + \
+    tags = ["files=%d" % len(set(outputs.values())), "formatter=" + case["formatter"]] + (["shared-file-of-%d" % case["n"]] if case.get("share") else []) + (["filename-with-directory"] if case.get("filename_subdir") else []) + (["line-directive"] if case.get("line_directive") else []) + (["env-contradicts-file"] if case.get("env_force") is not None and case.get("root_force") is not None else []) + (["inject=" + inj["stage"]] if inj else ["no-fault"]) + \
            (["blocked-by-existing"] if blocked else []) + (["dir-at-output"] if dir_clash else []) + ([] if strace else ["no-strace"])
     obs = {"exit": r.exit, "states": states, "effective_force": eff_force, "injected": inj, "must_fail": must_fail,
            "syscall_events": len(r.events), "strace": strace}
@@ -313,6 +324,10 @@ def body(ctx, replay=None):
                 nn = 3 + j % 2
                 cases.append({"kind": "write", "i": 31000 + j, "n": nn, "inj": {"stage": stage, "file": 1}, "formatter": fm,
                               "files": [{"state": st0, "force": None, "template": "testify"}] * nn, "root_force": True, "pkg_force": None})
+            # sources starting with a //line directive, output directory derived from {{.InterfaceDir}}
+            for j, (st0, rf) in enumerate((("absent", None), ("prev-long", True))):
+                cases.append({"kind": "write", "i": 34000 + j, "n": 2, "inj": None, "formatter": "gofmt", "line_directive": True,
+                              "files": [{"state": st0, "force": None, "template": "testify"}, {"state": "absent", "force": None, "template": "matryer"}], "root_force": rf, "pkg_force": None})
             # filename with a directory component, with a user file at <dir>/<basename> that is NOT an output of the run
             for j, (st0, rf) in enumerate((("absent", None), ("user", True), ("prev-long", True))):
                 cases.append({"kind": "write", "i": 33000 + j, "n": 2, "inj": None, "formatter": "noop", "filename_subdir": True, "decoy_at_basename": True,
